@@ -10,7 +10,9 @@ Number(sizes, from) == IF sizes = << >> THEN << >>
                        ELSE <<[i \in 1..Head(sizes) |-> from + i - 1]>> \o Number(Tail(sizes), from + Head(sizes))
 FaultLists == {<< >>, <<"overloaded">>, <<"drop">>, <<"delay">>, <<"read_timeout">>, <<"unavailable">>, <<"invalid">>, <<"syntax">>,
                <<"server_error">>, <<"unauthorized">>, <<"bootstrapping", "overloaded">>, <<"read_timeout", "read_timeout">>,
-               <<"unavailable", "unavailable">>, <<"overloaded", "delay">>, <<"read_timeout", "overloaded">>, <<"overloaded", "bootstrapping", "server_error">>}
+               <<"unavailable", "unavailable">>, <<"overloaded", "delay">>, <<"read_timeout", "overloaded">>, <<"overloaded", "bootstrapping", "server_error">>,
+               <<"unprepared">>, <<"overloaded", "unprepared">>}
+HasUnprep(faults) == \E i \in 1..Len(faults) : "unprepared" \in {faults[i][j] : j \in 1..Len(faults[i])}
 Few == {<< >>, <<"overloaded">>, <<"drop">>, <<"delay">>, <<"invalid">>, <<"read_timeout", "read_timeout">>, <<"bootstrapping", "overloaded">>}
 \* after a connection was dropped the pool of that node may still be reconnecting: keep the later pages within what two
 \* remaining plan targets can absorb (this bounds the scenario space, it is not part of the property)
@@ -30,15 +32,23 @@ Covering ==
                  i \in 1..2, j \in 2..3, f \in Few \ {<< >>}, g \in Few \ {<< >>}, kd \in {"prepared", "unprepared"}} : DropSafe(s.faults)}
   \cup {Sc(<<0, 2, 0>>, [NoFaults(3) EXCEPT ![i] = f], [mode |-> "all", n |-> 0], "unprepared", 1) : i \in 1..3, f \in FaultLists \ {<< >>}}
   \cup {Sc(<<1, 1, 1>>, NoFaults(3), [mode |-> "all", n |-> 0], kd, sv) : kd \in {"prepared", "unprepared"}, sv \in 2..4}
+  \* the server may return the same paging-state bytes with consecutive pages
+  \cup {Sc(p, NoFaults(Len(p)), c, kd, 5) : p \in {<<1, 1, 1>>, <<2, 0, 1, 2>>, <<1, 2>>}, c \in {[mode |-> "all", n |-> 0], [mode |-> "drop_after", n |-> 1]}, kd \in {"prepared", "unprepared"}}
+  \cup {Sc(<<1, 1, 2, 1>>, [NoFaults(4) EXCEPT ![i] = f], [mode |-> "all", n |-> 0], "prepared", 5) : i \in 2..4, f \in {<<"overloaded">>, <<"unprepared">>, <<"invalid">>}}
+  \* a consumer slower than the worker, with a failure on a late page (the error waits behind an undelivered page)
+  \cup {Sc(p, [NoFaults(Len(p)) EXCEPT ![i] = f], [mode |-> "slow", n |-> 0], kd, 1) :
+          p \in {<<1, 1, 1, 1>>, <<2, 1, 2>>}, i \in 2..4, f \in {<<"invalid">>, <<"overloaded", "syntax">>, <<"unavailable", "unavailable">>}, kd \in {"prepared", "unprepared"}}
 Product ==
   {s \in {Sc(p, fs, c, kd, 1) : p \in {<<1>>, <<0, 2>>, <<2, 1>>, <<1, 0, 2>>, <<2, 2, 1>>}, fs \in UNION {[1..n -> FaultLists] : n \in 1..3},
                                 c \in Consumers, kd \in {"prepared"}} : Len(s.faults) = Len(s.pages) /\ DropSafe(s.faults)}
-Scenarios == IF Full THEN Covering \cup Product ELSE Covering
+Well(s) == (HasUnprep(s.faults) => s.kind = "prepared") /\ (\E i \in DOMAIN s.faults : i > Len(s.pages)) = FALSE /\ Len(s.faults) = Len(s.pages)
+Scenarios == {s \in (IF Full THEN Covering \cup Product ELSE Covering) : Well(s)}
 
 Init == \E s \in Scenarios : Init0(s)
 Spec == Init /\ [][Next]_vars /\ Fairness
 \* paging-state byte strings (what the server returns with page i): sv selects the flavour
 StateOf(sv, i) == CASE sv = 1 -> <<i>> [] sv = 2 -> <<255, 255, i, 0>> [] sv = 3 -> [j \in 1..64 |-> (i * 37 + j) % 256] [] sv = 4 -> <<0, i>>
+                    [] sv = 5 -> <<7, 7>>
 Emit == TLCGet("level") = 1 =>
   PrintT(<<"SCEN", ToJson([kind |-> sc.kind, pages |-> sc.pages, faults |-> sc.faults, consumer |-> sc.consumer,
                            states |-> [i \in 1..(Len(sc.pages) - 1) |-> StateOf(sc.sv, i)], page_size |-> 2])>>)
